@@ -61,7 +61,7 @@ SIG = r'void parse_some\(basic_json_visitor<CharT>& visitor, std::error_code& ec
 SPECS = [
     EnumSpec('csv_parse_state', P), EnumSpec('csv_errc', 'include/jsoncons_ext/csv/csv_error.hpp'),
     FuncSpec('quoted_states', P, SIG, count=1, csig='void quoted_states(struct csv_parser* self, int* ec_p)', contract=QUOTED, rules=RULES, aliases=AL,
-             slice_from=r'case csv_parse_state::quoted_string:', slice_to=r'case csv_parse_state::before_unquoted_string:\s*\{',
+             slice_from=r'case csv_parse_state::quoted_string:(?=\s*\{\s*if \(curr_char == quote_escape_char_\))', slice_to=r'case csv_parse_state::before_unquoted_string:\s*\{',
              prologue='char curr_char = *input_ptr_; int vx_st = (state_ == csv_parse_state_escaped_value); vx_spec_r = spec_csv_quoted_step(&vx_st, curr_char, quote_char_, quote_escape_char_); switch (state_) {', epilogue='default: break; }'),
     FuncSpec('unquoted_string', P, SIG, count=1, csig='void unquoted_string(struct csv_parser* self, int* ec_p)', contract=UNQUOTED, rules=RULES, aliases=AL,
              slice_from=r'case csv_parse_state::unquoted_string:\s*\{\s*switch \(curr_char\)', slice_to=r'case csv_parse_state::expect_record:',
@@ -70,7 +70,21 @@ SPECS = [
 SPECS.append(FuncSpec('expect_record', P, SIG, count=1, csig='void expect_record(struct csv_parser* self, int* ec_p)', contract=EXPECT_RECORD, rules=R_RULES, aliases=dict(AL, line_='(self->line_)', ignore_empty_lines_='(self->ignore_empty_lines_)'),
              slice_from=r'case csv_parse_state::expect_record:\s*\{\s*switch \(curr_char\)', slice_to=r'case csv_parse_state::end_record:',
              prologue='char curr_char = *input_ptr_; switch (state_) {', epilogue='default: break; }'))
+# ---- end of input (the switch that runs when the input is exhausted): inside a quoted field the closing quote is missing -> unexpected_eof (F41: the state fell into the
+# default arm, the record that had been begun was never ended and json_decoder's internal assertion failed)
+EOF_C = [
+    ('requires', '*ec_p == 0 && self->more_ && vx_before_values == 0 && vx_end_quoted == 0 && !vx_default_arm && self->column_ <= SIZE_MAX / 2 && vx_column_index <= SIZE_MAX / 2 && (self->state_ == csv_parse_state_quoted_string || self->state_ == csv_parse_state_escaped_value || self->state_ == csv_parse_state_before_last_quoted_field)'),
+    ('assigns', '*ec_p, self->state_, self->more_, self->column_, vx_before_values, vx_end_quoted, vx_default_arm, vx_column_index, vx_err_handler_calls, vx_buflen'),
+    ('ensures', '[C05][C18] the input ends inside a quoted field (no closing quote): unexpected_eof, the parser stops; it is never treated as the end of a record',
+     '__CPROVER_old(self->state_) == csv_parse_state_quoted_string ==> (*ec_p == csv_errc_unexpected_eof && !self->more_ && !vx_default_arm && vx_before_values == 0)'),
+    ('ensures', '[C18] the input ends right after the closing quote of the last field: the field is delivered and the record ends', '__CPROVER_old(self->state_) == csv_parse_state_before_last_quoted_field ==> (vx_end_quoted == 1 && self->state_ == csv_parse_state_end_record && *ec_p == 0)'),
+]
+SPECS.append(FuncSpec('eof_quoted', P, SIG, count=1, csig='void eof_quoted(struct csv_parser* self, int* ec_p)', contract=EOF_C, aliases=dict(AL, column_index_='vx_column_index'),
+             rules=RULES[:2] + [(r'end_quoted_string_value\(local_visitor, ec\);', 'vx_end_quoted++;', 1), (r'err_handler_\(csv_errc_unexpected_eof, \*this\);', 'vx_err_handler_calls++;', 0, 1), (r'buffer_\.empty\(\)', '(vx_buflen == 0)', 1, 3), (r'before_value\(local_visitor, ec\);', 'vx_before_value(ec_p);', 1, 2)],
+             slice_from=r'case csv_parse_state::before_last_quoted_field:(?=\s*end_quoted_string_value\(local_visitor, ec\);\s*\+\+column_index_;)', slice_to=r'case csv_parse_state::end_record:\s*if \(column_index_ > 0\)',
+             prologue='switch (state_) {', epilogue='default: vx_default_arm = true; state_ = csv_parse_state_end_record; break; }'))
 HARNESSES = [
+    Harness('eof_quoted', 'h_eof_quoted', enforce='eof_quoted', method='LF', props=['C05', 'C18', 'C03'], note='program slice of the end-of-input switch of parse_some: the three states that can hold when the input ends in or right after a quoted field; every other state takes the default arm, which the slice reproduces'),
     Harness('expect_record', 'h_expect_record', enforce='expect_record', method='LF', props=['C18', 'C03']),
     Harness('quoted_states', 'h_quoted_states', enforce='quoted_states', method='LF', props=['C18', 'C03']),
     Harness('unquoted_string', 'h_unquoted_string', enforce='unquoted_string', method='LF', props=['C18', 'C03']),
